@@ -279,6 +279,8 @@ class C19(Lab):
                     raise Violation("C19/watchdog/timeout-value", f"getTimeout()={wd.getTimeout()!r} after setTimeout({arg * 1e-6!r}); case: {case}")
             elif op == "addEpoch":
                 wd.addEpoch(f"epoch{i}")
+                if arg == 1:
+                    wd.disable()  # documented: "this doesn't do anything" - expiry is still counted from the last reset
             elif op == "getTime":
                 if t_reset is not None and abs(wd.getTime() - (now - t_reset) / 1e6) > 1e-9:
                     raise Violation("C19/watchdog/getTime", f"getTime()={wd.getTime()!r}, {now - t_reset}us since the last reset; case: {case}")
